@@ -9,7 +9,7 @@
     native text, from the first re-parse on for foreign spellings) - partial in that sense. *)
 From V Require Import base.Prelude base.Strs gen.Tables model.Cfg model.Names model.Wildcard model.Ports model.Addr model.Ace
   model.Lex model.AddrText model.AceText model.AclText
-  proofs.NamesProofs proofs.PortsProofs proofs.TextProofs proofs.SplitterProofs proofs.AceFixProofs proofs.AddrObjProofs proofs.ParsedAceProofs.
+  proofs.NamesProofs proofs.PortsProofs proofs.TextProofs proofs.SplitterProofs proofs.AceFixProofs proofs.AddrObjProofs proofs.ParsedAceProofs proofs.GroupAceProofs proofs.AclFixProofs.
 Local Open Scope N_scope.
 
 Theorem C06_port_partial : forall pr pl v15 nr o xs p,
@@ -101,6 +101,42 @@ Theorem C06_parsed_ace : forall c, (plat c = Ios \/ plat c = Nxos) ->
   parse_ace_text c (render_ace c t) = Ok t.
 Proof. exact parsed_ace_fixpoint. Qed.
 
+
+(** ** ... with address-group references
+    The same for ACEs whose source and/or destination is a group reference "object-group NAME" /
+    "addrgroup NAME" (no attached members: the line does not carry them) with a valid name that
+    is not itself a group keyword: [addr_built] = reader-built single address OR group reference.
+    [C06_group_reference] is the address-level fixed point of the reference. *)
+Theorem C06_group_reference : forall pl limit name, (pl = Ios \/ pl = Nxos) -> check_name name = true ->
+  parse_address_text pl limit (render_addr pl (AGroup name [])) = Ok (AGroup name []).
+Proof. exact group_text_fixpoint. Qed.
+
+Theorem C06_parsed_ace_groups : forall c, (plat c = Ios \/ plat c = Nxos) ->
+  forall permit n sq s d toks1 toks2 p1 p2 opts flags logs,
+  n <= 255 ->
+  addr_built (plat c) (Z.of_nat (max_ncwb c)) s ->
+  addr_built (plat c) (Z.of_nat (max_ncwb c)) d ->
+  parse_port (plat c) (proto_ctx (plat c) (is15 c) n) toks1 = Ok p1 /\ (proto_ctx (plat c) (is15 c) n = None -> p1 = empty_port) ->
+  parse_port (plat c) (proto_ctx (plat c) (is15 c) n) toks2 = Ok p2 /\ (proto_ctx (plat c) (is15 c) n = None -> p2 = empty_port) ->
+  Forall token opts /\ Forall af opts /\ parse_option opts = Ok (flags, logs)
+  /\ split_dstport_option (render_port (port_nr c) (proto_ctx (plat c) (is15 c) n) p2 ++ opts)
+     = (render_port (port_nr c) (proto_ctx (plat c) (is15 c) n) p2, opts) ->
+  let t := mkTace true sq (mkAce permit n s d p1 p2 flags logs) opts in
+  parse_ace_text c (render_ace c t) = Ok t.
+Proof. exact parsed_ace_fixpoint_groups. Qed.
+
+
+(** ** the body of an ACL
+    A list of remarks (text = blank-joined tokens) and reader-built extended ACEs, with or
+    without group references, is a fixed point of the text round trip of the container: every
+    rendered line is classified as an item and read back as the SAME item; no line is dropped,
+    reported or aborts the construction; the items come back in the same order. *)
+Theorem C06_acl_body : forall c, (plat c = Ios \/ plat c = Nxos) ->
+  forall items, Forall (item_built c) items ->
+  let cl := classify_all c (map (render_item c) items) in
+  cl = map LItem items /\ aborted cl = false /\ items_of cl = items.
+Proof. exact acl_body_built_fixpoint. Qed.
+
 Theorem C06_port_tokens : forall nr c p, Forall token (render_port nr c p) /\ Forall af (render_port nr c p).
 Proof. exact render_port_toks. Qed.
 
@@ -148,3 +184,42 @@ Example C06_nonvacuous :
   c06_example = Ok ("permit tcp 10.0.0.0 0.0.0.255 eq www 443 any eq 22 log",
                     "permit tcp 10.0.0.0 0.0.0.255 eq www 443 any eq 22 log").
 Proof. vm_compute. reflexivity. Qed.
+
+(** the hypotheses of [C06_parsed_ace_groups] are met by a line with two group references, one
+    of them named like an address keyword *)
+Definition c06_gp1 : port := Eval vm_compute in match parse_port Ios (proto_ctx Ios false 6) ["eq"; "80"] with Ok p => p | _ => empty_port end.
+Example C06_groups_nonvacuous :
+  let c := mkCfg Ios false false false 16%nat in
+  let t := mkTace true 20 (mkAce false 6 (AGroup "any-servers" []) (AGroup "host" []) c06_gp1 empty_port [] ["log"]) ["log"] in
+  render_ace c t = "20 deny tcp object-group any-servers eq www object-group host log"
+  /\ parse_ace_text c (render_ace c t) = Ok t.
+Proof.
+  split; [vm_compute; reflexivity|].
+  apply (C06_parsed_ace_groups (mkCfg Ios false false false 16%nat) (or_introl eq_refl)
+           false 6 20 (AGroup "any-servers" []) (AGroup "host" []) ["eq"; "80"] [] c06_gp1 empty_port ["log"] [] ["log"]).
+  - vm_compute. discriminate.
+  - right. exists "any-servers". split; [reflexivity|]. split; vm_compute; reflexivity.
+  - right. exists "host". split; [reflexivity|]. split; vm_compute; reflexivity.
+  - split; [vm_compute; reflexivity|discriminate].
+  - split; [vm_compute; reflexivity|discriminate].
+  - split; [toks|]. split; [afs|]. split; vm_compute; reflexivity.
+Qed.
+
+Example C06_acl_body_nonvacuous :
+  let c := mkCfg Ios false false false 16%nat in
+  let t := mkTace true 20 (mkAce false 6 (AGroup "any-servers" []) (AGroup "host" []) c06_gp1 empty_port [] ["log"]) ["log"] in
+  let items := [AIRemark 10 "10 permit me"; AIAce t] in
+  Forall (item_built c) items
+  /\ map (render_item c) items = ["10 remark 10 permit me"; "20 deny tcp object-group any-servers eq www object-group host log"].
+Proof.
+  split; [|vm_compute; reflexivity].
+  apply Forall_cons; [|apply Forall_cons; [|apply Forall_nil]].
+  - exists ["10"; "permit"; "me"]. split; [discriminate|]. split; [toks|reflexivity].
+  - exists false, 6, 20, (AGroup "any-servers" []), (AGroup "host" []), ["eq"; "80"], [], c06_gp1, empty_port, ["log"], [], ["log"].
+    split; [reflexivity|]. split; [vm_compute; discriminate|].
+    split; [right; exists "any-servers"; split; [reflexivity|]; split; vm_compute; reflexivity|].
+    split; [right; exists "host"; split; [reflexivity|]; split; vm_compute; reflexivity|].
+    split; [split; [vm_compute; reflexivity|discriminate]|].
+    split; [split; [vm_compute; reflexivity|discriminate]|].
+    split; [toks|]. split; [afs|]. split; vm_compute; reflexivity.
+Qed.
